@@ -114,10 +114,26 @@ Fixpoint dict_set (k : string) (v : item) (d : list (string * item)) : list (str
   | (k', v') :: r => if String.eqb k k' then (k, v) :: r else (k', v') :: dict_set k v r
   end.
 
-Definition gather_items (its : list item) : list item :=
-  map snd (fold_left (fun d it => dict_set (key it) it d) its []).
+Definition set_items (d : list (string * item)) (its : list item) : list (string * item) :=
+  fold_left (fun d it => dict_set (key it) it d) its d.
 
-Definition gather (m : module) : list item := gather_items (all_items m).
+Definition has_plain (ns : list name) : bool :=
+  existsb (fun n => match snd n with None => true | Some _ => false end) ns.
+
+(* _handle_ImportFrom returns early - before the symbol mapping is updated - when the statement has an
+   unaliased name and a star import of the same module was seen before ("don't add to a '*' module") *)
+Fixpoint gather_go (stars : list string) (d : list (string * item)) (is : list imp) : list (string * item) :=
+  match is with
+  | [] => d
+  | IStar md :: r => gather_go (if is_rel md then stars else md :: stars) d r
+  | IFrom md ns :: r =>
+      if is_rel md then gather_go stars d r
+      else if has_plain ns && smemb md stars then gather_go stars d r
+      else gather_go stars (set_items d (imp_items (IFrom md ns))) r
+  | IImport ns :: r => gather_go stars (set_items d (imp_items (IImport ns))) r
+  end.
+
+Definition gather (m : module) : list item := map snd (gather_go [] [] (all_imps m)).
 
 (* cli.get_newly_imported_items: set(stub symbol mapping) - set(source symbol mapping) *)
 Definition newly (stub src : module) : list item :=
